@@ -92,7 +92,7 @@ package gateway
 
 //@ func (*handler1).handleClientPublish
 //@   nopanic [C25]
-//@   at Store.0 before assert [C06] no_broker_exchange_replaced: !(arg(1) in h.transactions.bypktID) || !(startedByBroker(h.transactions.bypktID[arg(1)]) && inProgress(h.transactions.bypktID[arg(1)]))
+//@   at Store.0 before check [C06] no_broker_exchange_replaced: !(arg(1) in h.transactions.bypktID) || !(startedByBroker(h.transactions.bypktID[arg(1)]) && inProgress(h.transactions.bypktID[arg(1)]))
 //@   ensures [C06] only_qos1_touches_the_store: snPublish.QOS != 1 ==> (forall k uint16 :: (k in h.transactions.bypktID) == old(k in h.transactions.bypktID) && h.transactions.bypktID[k] == old(h.transactions.bypktID[k]))
 //@   requires [C25] inv: hInv(h)
 //@   requires [C25] pkt: snPublish != nil
@@ -492,7 +492,7 @@ package gateway
 //@   requires [C24] cfg_names: cfgNamesOK(h)
 //@   assigns *
 //@   at Store.0 before assert [C25] new_entry_wf: txEntryWF(h, arg(2))
-//@   at Store.0 before assert [C06] no_broker_exchange_replaced: !(arg(1) in h.transactions.bypktID) || !(startedByBroker(h.transactions.bypktID[arg(1)]) && inProgress(h.transactions.bypktID[arg(1)]))
+//@   at Store.0 before check [C06] no_broker_exchange_replaced: !(arg(1) in h.transactions.bypktID) || !(startedByBroker(h.transactions.bypktID[arg(1)]) && inProgress(h.transactions.bypktID[arg(1)]))
 //@   let n0 = old(h.mqttOutN)
 //@   ensures [C25] keeps_basic: h.cfg != nil && h.state != nil && h.snConn != nil && h.mqttConn != nil && h.transactions != nil && state(h) <= 3
 //@   ensures [C25] keeps_store: storeInv(h.transactions)
